@@ -738,3 +738,65 @@ pub fn convergent_promotions() -> Vec<Pos> {
         .collect();
     res.into_iter().flatten().collect()
 }
+
+/// "Double en passant": two pawns of the side to move can both capture the pawn that has just
+/// made a double step, and exactly one of the two captures uncovers a check from a rook or queen
+/// standing behind the capturing pawn on its file (the enemy king ahead on that file); the mover
+/// also has a queen, so that the position has more than 20 legal moves of several ranks (checks,
+/// captures, quiet moves). Enumerated over colour, file, discovering side, the squares of the
+/// line piece / enemy king on the file, the mover's king (a few squares) and queen (every square).
+pub fn double_en_passant(full: bool) -> Vec<Pos> {
+    use rayon::prelude::*;
+    let jobs: Vec<(Side, i8, i8)> = [Side::White, Side::Black].iter().flat_map(|s| (1..7i8).flat_map(move |f| [-1i8, 1].into_iter().map(move |d| (*s, f, d)))).collect();
+    let res: Vec<Vec<Pos>> = jobs
+        .par_iter()
+        .map(|(mover, f, disc)| {
+            let opp = mover.other();
+            // mover's pawns stand on its fifth rank beside the pushed pawn
+            let (r5, r6, r7, back, far) = if *mover == Side::White { (4i8, 5i8, 6i8, 0i8, 7i8) } else { (3i8, 2i8, 1i8, 7i8, 0i8) };
+            let _ = r7;
+            let pushed = mk_sq(*f, r5).unwrap();
+            let ep = mk_sq(*f, r6).unwrap();
+            let pa = mk_sq(f - 1, r5).unwrap();
+            let pb = mk_sq(f + 1, r5).unwrap();
+            let dfile = f + disc;
+            let mut out = Vec::new();
+            for lk in [Kind::Rook, Kind::Queen] {
+                let line_sq = mk_sq(dfile, back).unwrap();
+                for ek_r in [far, far - (far - back).signum()] {
+                    let ek = mk_sq(dfile, ek_r).unwrap();
+                    for ks in [mk_sq(7 - dfile.min(6), back).unwrap(), mk_sq((dfile + 3) % 8, back).unwrap()] {
+                        for qs in 0..64u8 {
+                            if !full && qs % 2 == 1 {
+                                continue;
+                            }
+                            let mut p = Pos::empty();
+                            p.stm = *mover;
+                            p.ep = Some(ep);
+                            for (sq, pc) in [(pushed, (Kind::Pawn, opp)), (pa, (Kind::Pawn, *mover)), (pb, (Kind::Pawn, *mover)), (line_sq, (lk, *mover)), (ek, (Kind::King, opp)), (ks, (Kind::King, *mover)), (qs, (Kind::Queen, *mover))] {
+                                if p.sq[sq as usize].is_some() {
+                                    p.stm = opp; // marks a clash: rejected below
+                                }
+                                p.sq[sq as usize] = Some(pc);
+                            }
+                            if p.stm != *mover || !p.is_consistent() {
+                                continue;
+                            }
+                            let legal = p.legal_moves();
+                            let eps: Vec<&Move> = legal.iter().filter(|m| m.kind == MoveKind::EnPassant).collect();
+                            if eps.len() != 2 || legal.len() <= 20 {
+                                continue;
+                            }
+                            let checks = eps.iter().filter(|m| p.make(m).in_check(opp)).count();
+                            if checks == 1 {
+                                out.push(p);
+                            }
+                        }
+                    }
+                }
+            }
+            out
+        })
+        .collect();
+    res.into_iter().flatten().collect()
+}
